@@ -22,6 +22,7 @@ TInit == ti \in 1..Len(Progs) /\ tdone = FALSE
 TNext == tdone = FALSE /\ tdone' = TRUE /\ UNCHANGED ti
 TSpec == TInit /\ [][TNext]_tvars
 
-Report(i, which, G) == BadNodes(G) = {} \/ (PrintT(<<"BADTYPE", ToString(i), which, BadNodes(G)>>) /\ FALSE)
+\* every ill-typed graph is printed (one BADTYPE line each); the check reads the lines, so one TLC run finds them all
+Report(i, which, G) == BadNodes(G) = {} \/ PrintT(<<"BADTYPE", i, which, BadNodes(G)>>)
 WellTyped == tdone => (Report(ti, "mpc", Progs[ti].mpc) /\ Report(ti, "src", Progs[ti].src))
 =============================================================================
